@@ -93,6 +93,45 @@ def fam_lines(rng: random.Random) -> Grammar:
     return g
 
 
+def fam_nullable(rng: random.Random) -> Grammar:
+    """Layers of optional parts: nonterminals that are nullable only *through* other
+    nonterminals (unit aliases of nullable lists / options), listed before or after the
+    ones they inherit emptiness from, adjacent to each other at the start of alternatives."""
+    kw1, kw2 = rng.sample(["run ", "var ", "let ", "do ", "go "], 2)
+    item = [f"<pre><mods>{kw1}<id>", f"<mods>{kw2}<id>"]
+    if rng.random() < 0.4:
+        item.append(f"<pre><pre>{kw2}<id>")
+    defs = [
+        ("<pre>", ["<optpre>"] if rng.random() < 0.7 else ["<optpre>", "<mods>"]),
+        ("<mods>", ["<modlist>"]),
+        ("<optpre>", ["", "<id>:"]),
+        ("<modlist>", ["", "<mod><modlist>"]),
+        ("<mod>", rng.sample(["pub ", "mut ", "ref ", "own "], rng.randint(1, 3))),
+        ("<id>", _letters(rng, 2, 4)),
+    ]
+    if rng.random() < 0.3:
+        # a second alias level
+        defs[1] = ("<mods>", ["<mods2>"])
+        defs.insert(2, ("<mods2>", ["<modlist>"]))
+    # listing order is part of the shape: sometimes aliases first, sometimes last
+    head = defs[:-2]
+    if rng.random() < 0.5:
+        rng.shuffle(head)
+    # the alternatives in random order, directly below <item> or each behind its own
+    # nonterminal (which changes the order in which an Earley column predicts them)
+    rng.shuffle(item)
+    g: Grammar = {"<start>": ["<item>"] if rng.random() < 0.5 else ["<item>", "<item>;<start>"]}
+    if rng.random() < 0.6:
+        g["<item>"] = [f"<alt{i}>" for i in range(len(item))]
+        for i, a in enumerate(item):
+            g[f"<alt{i}>"] = [a]
+    else:
+        g["<item>"] = item
+    for k, v in head + defs[-2:]:
+        g[k] = v
+    return g
+
+
 def fam_config(rng: random.Random) -> Grammar:
     g = {
         "<start>": ["<entries>"],
@@ -159,7 +198,7 @@ def fam_signed(rng: random.Random) -> Grammar:
         "<start>": ["<list>"],
         "<list>": [f"<int>{sep}<list>", "<int>"],
         "<int>": ["<sign><digits>"],
-        "<sign>": ["", "-"] if rng.random() < 0.7 else ["", "-", "+"],
+        "<sign>": rng.choice([["", "-"], ["", "-"], ["", "-"], ["", "-", "+"], ["+", "-"]]),
         "<digits>": ["<digit><digits>", "<digit>"],
         "<digit>": _digits(rng),
     }
@@ -250,6 +289,7 @@ FAMILIES = {
     "csv": fam_csv,
     "config": fam_config,
     "lines": fam_lines,
+    "nullable": fam_nullable,
     "xml": fam_xml,
     "expr": fam_expr,
     "lenprefix": fam_lenprefix,
@@ -462,7 +502,7 @@ def make_grammar(rng: random.Random, family: Optional[str] = None) -> Tuple[str,
     if family is None:
         family = rng.choice(
             ["assgn", "assgn", "blocks", "csv", "config", "config", "xml", "expr",
-             "lenprefix", "signed", "signed", "ambig", "wide", "lines", "random", "random", "random"]
+             "lenprefix", "signed", "signed", "ambig", "wide", "lines", "nullable", "random", "random", "random"]
         )
     for _ in range(20):
         g = FAMILIES[family](rng)
